@@ -1,4 +1,95 @@
-import RbModel.Cluster
+/-
+  C02 — output clusters come from the input and are monotone in the text direction.
+
+  The theorems are about the operational model of buffer.rs (`Buf.lean`, tied to the crate by the `cluster-prims`
+  correspondence stream).  `lview b` is the logical glyph sequence of a buffer (`out[0..out_len) ++ info[idx..len)`, in
+  in-place mode simply `info[0..len)`), `WF b` the representation invariant (`idx ≤ len ≤ |info|`, the out-buffer fits),
+  `NonDecr` / `NonIncr` "cluster values never decrease / increase along the sequence", `ValuesSubset L' L` "every
+  cluster value of L' occurs in L", `IsMinCluster μ L` "μ is the smallest cluster value of L", `Coarsens L L'` "glyphs
+  that shared a cluster in L share one in L'" (Lemmas/Cluster.lean).  All statements quantify over all buffers
+  satisfying `WF` (any contents, both output modes) and all ranges inside the buffer.
+-/
+import RbModel.Lemmas.Cluster
+
 namespace RbModel.Buf
-theorem C02_placeholder : Dir.reverse (Dir.reverse 1) = 1 := by decide
+
+/-- The source has HarfBuzz's guard `idx < start` in the "extend start" loop of `merge_clusters`
+    (recovered from the compiled crate by a probe call on every run, tools/gens/buf.py).  With the former
+    guard `end < start` (never true, defect D4) `C02_merge_monotone` is false: in the descending buffer
+    `[5,5,2]` the call `merge_clusters(1,3)` gave `[5,2,2]`, separating the two glyphs of cluster 5. -/
+theorem C02_gen_extend_start_guard : Gen.Buf.extendStartGuard = 1 := by decide
+
+/-- **merge_clusters keeps a monotone buffer monotone and never splits a cluster.**
+    For every well-formed buffer, every range `[s,e)` of the unconsumed input and every cluster level:
+    `merge_clusters(s,e)` does not panic, moves no glyph, and on the logical sequence (out-buffer part included —
+    the merge continues across the in/out boundary): cluster values ⊆ those before; non-decreasing stays
+    non-decreasing, non-increasing stays non-increasing; on a monotone sequence no two glyphs of one cluster are
+    separated (coarsening); at the levels 0/1 the smallest cluster value is kept. -/
+theorem C02_merge_monotone (b : Buf) (s e : Nat) (hwf : WF b) (hs : b.idx ≤ s) (he : e ≤ b.len) :
+    ∃ b', b.mergeClusters s e = .ok b' ∧ WF b' ∧ (lview b').length = (lview b).length ∧
+      ValuesSubset (lview b') (lview b) ∧
+      (NonDecr (lview b) → NonDecr (lview b')) ∧ (NonIncr (lview b) → NonIncr (lview b')) ∧
+      (NonDecr (lview b) ∨ NonIncr (lview b) → Coarsens (lview b) (lview b')) ∧
+      (b.level ≠ 2 → ∀ μ, IsMinCluster μ (lview b) → IsMinCluster μ (lview b')) := by
+  obtain ⟨b', h, hwf', _, _, _, _, _, _, hp, hmin, _, _⟩ := mergeClusters_props b s e hwf hs he C02_gen_extend_start_guard
+  exact ⟨b', h, hwf', hp.len, hp.subset, hp.nonDecr, hp.nonIncr, hp.coarsens, hmin⟩
+
+/-- the same for `merge_out_clusters(s,e)` on a range of the out-buffer (it continues into the unconsumed input) -/
+theorem C02_merge_out_monotone (b : Buf) (s e : Nat) (hwf : WF b) (he : e ≤ b.outLen) :
+    ∃ b', b.mergeOutClusters s e = .ok b' ∧ WF b' ∧ (lview b').length = (lview b).length ∧
+      ValuesSubset (lview b') (lview b) ∧
+      (NonDecr (lview b) → NonDecr (lview b')) ∧ (NonIncr (lview b) → NonIncr (lview b')) ∧
+      (NonDecr (lview b) ∨ NonIncr (lview b) → Coarsens (lview b) (lview b')) ∧
+      (b.level ≠ 2 → ∀ μ, IsMinCluster μ (lview b) → IsMinCluster μ (lview b')) := by
+  obtain ⟨b', h, hwf', _, _, _, _, _, _, hp, hmin⟩ := mergeOutClusters_props b s e hwf he
+  exact ⟨b', h, hwf', hp.len, hp.subset, hp.nonDecr, hp.nonIncr, hp.coarsens, hmin⟩
+
+/-- **move, then merge.**  If the logical sequence of `b` is the logical sequence `L0` of a monotone buffer with the
+    records of the range permuted among themselves (`RangePerm`), then `merge_clusters` over that range (levels 0/1)
+    yields a monotone sequence again, with values ⊆ and the minimum kept.  (It is a coarsening of `L0` only if no
+    cluster of `L0` straddles an end of the range — `[4,4,4,2,1 | 0,1]` merged over the last two is a
+    counterexample, also in HarfBuzz; cluster integrity at such sites is C08's matter.) -/
+theorem C02_merge_after_perm (b : Buf) (L0 : List Info) (s e : Nat) (hwf : WF b) (hs : b.idx ≤ s) (he : e ≤ b.len)
+    (hl : b.level ≠ 2) (hse : 2 ≤ e - s)
+    (hp : RangePerm L0 (lview b) (b.outLen + (s - b.idx)) (b.outLen + (e - b.idx))) :
+    ∃ b', b.mergeClusters s e = .ok b' ∧
+      (NonDecr L0 → NonDecr (lview b')) ∧ (NonIncr L0 → NonIncr (lview b')) ∧
+      ValuesSubset (lview b') L0 ∧ (∀ μ, IsMinCluster μ L0 → IsMinCluster μ (lview b')) := by
+  obtain ⟨b', h, _, _, _, _, _, _, _, hm, hmin, hup, hdown⟩ := mergeClusters_props b s e hwf hs he C02_gen_extend_start_guard
+  refine ⟨b', h, fun h0 => hup hl hse (hp.sandwichUp h0), fun h0 => hdown hl hse (hp.sandwichDown h0), ?_, ?_⟩
+  · exact hm.subset.trans (values_subset_of_rangePerm hp)
+  · intro μ hμ
+    exact hmin hl μ (isMin_of_rangePerm hp hμ)
+
+/-- **merge, then move.**  Permuting records inside a range whose clusters are all equal changes neither the
+    cluster sequence nor, therefore, monotonicity (the merge-then-move sites: `sort`, Arabic mark reordering,
+    Thai NIKHAHIT, Hangul tone mark, morx rearrangement). -/
+theorem C02_perm_in_merged (L0 L : List Info) (S E c : Nat) (hp : RangePerm L0 L S E)
+    (hu : ∀ q v, S ≤ q → q < E → cl? L0 q = some v → v = c) :
+    L.map (·.cluster) = L0.map (·.cluster) ∧ (NonDecr L0 → NonDecr L) ∧ (NonIncr L0 → NonIncr L) := by
+  have h := hp.cl_eq_of_uniform hu
+  refine ⟨?_, nonDecr_of_cl_eq h, nonIncr_of_cl_eq h⟩
+  apply List.ext_getElem?
+  intro q
+  have := h q
+  unfold cl? at this
+  rw [List.getElem?_map, List.getElem?_map]; exact this
+
+/-! ## non-vacuity -/
+
+/-- a two-sided state in separate-output mode: out = [c5, c5], in = [c5, c2, c1] (descending) -/
+def exDesc : Buf :=
+  { info := [{}, ⟨3,0,5,0,0⟩, ⟨4,0,2,0,0⟩, ⟨5,0,1,0,0⟩], out := [⟨1,0,5,0,0⟩, ⟨2,0,5,0,0⟩, {}, {}],
+    idx := 1, len := 4, outLen := 2, haveOutput := true, sepOut := true, level := 0 }
+
+example : WF exDesc := ⟨by decide, by decide, by decide, by decide⟩
+example : NonIncr (lview exDesc) := nonIncr_of_pairwise _ (by decide)
+/-- merging the first two unconsumed glyphs (clusters 5, 2) reaches back into the out-buffer: all of cluster 5 becomes 2 -/
+example : (match exDesc.mergeClusters 1 3 with
+    | .ok b' => (lview b').map (·.cluster) == [2, 2, 2, 2, 1]
+    | .error _ => false) = true := by decide
+/-- the second and third unconsumed glyphs swapped: an in-range permutation on logical positions [3,5) -/
+example : RangePerm (lview exDesc) (lview { exDesc with info := [{}, ⟨3,0,5,0,0⟩, ⟨5,0,1,0,0⟩, ⟨4,0,2,0,0⟩] }) 3 5 :=
+  RangePerm.of_take_drop (by decide) (by decide) (by decide) (by decide)
+
 end RbModel.Buf
